@@ -653,6 +653,15 @@ fn battery(j: &Jwk, via: &str, mismatch_sig: &str, secrets: &[String], with_meth
   );
   obs.label(if present.is_empty() { "jwk-public" } else { "jwk-has-private-member" });
 
+  // The thumbprint of the value as it is *now* (after whatever setters were applied to it): RFC 7638 over the
+  // required public members it currently serialises. Empty keys (no required members yet) have none.
+  if let (Ok(input), Ok(reference)) = (thumbprint_input(&jv), thumbprint_b64(&jv)) {
+    if !input.contains("\"\"") {
+      check_thumbprint(j, "thumbprint-differs-from-current-members", via, &input, &reference, obs)?;
+      obs.label("thumbprint-of-current-value");
+    }
+  }
+
   // "the public projection contains no private member"
   let projection = match catch(|| j.to_public()) {
     Ok(p) => p,
